@@ -184,14 +184,14 @@ Lemma pstep_report_node pods s :
   o_handled (snd (pstep pods s (PReport 0))) = true -> label_on (n_label (ps_n s)) = true ->
   let s' := fst (pstep pods s (PReport 0)) in
   exists ev, o_ev (snd (pstep pods s (PReport 0))) = Some ev /\
-    snd (cstep (ps_ratio s) pods (ps_c s) (OReport false (n_label (ps_n s)) (n_annot (ps_n s)))) = ReportOut (Some ev) /\
+    snd (cstep (ps_ratio s) pods (ps_c s) (OReport false (n_label (ps_n s)) (n_annot (ps_n s)) (n_acpu (ps_n s)) (n_amem (ps_n s)))) = ReportOut (Some ev) /\
     r_times (ps_r s') = r_times (ps_r s) + 1 /\
     (ps_n s' = write_ext (ps_n s) ev \/
      (ps_n s' = ps_n s /\ (r_times (ps_r s) + 1) mod re_sync_period <> 0 /\
       should_update (cur_of (ps_n s)) ev = false)).
 Proof.
   intros H L. cbn [pstep] in *. change (0 =? 1) with false in *.
-  destruct (snd (cstep (ps_ratio s) pods (ps_c s) (OReport false (n_label (ps_n s)) (n_annot (ps_n s)))))
+  destruct (snd (cstep (ps_ratio s) pods (ps_c s) (OReport false (n_label (ps_n s)) (n_annot (ps_n s)) (n_acpu (ps_n s)) (n_amem (ps_n s)))))
     as [f q|[ev|]|e] eqn:C; simpl in H; try discriminate.
   destruct (r_active (ps_r s)); simpl in H; try discriminate.
   pose proof (rhandle_spec (ps_r s) (ps_n s) ev L) as R.
@@ -200,11 +200,11 @@ Proof.
 Qed.
 
 Section Pipeline.
-  Variables (pods : list pod) (Rmax Ac Am : Z).
+  Variables (pods : list (list pod)) (Rmax Ac Am : Z).
   Hypothesis HR : 0 <= Rmax <= 100.
   Hypothesis HAc : 0 <= Ac <= max_alloc.
   Hypothesis HAm : 0 <= Am <= max_alloc.
-  Hypothesis Hpods : forall policy, 0 <= guaranteed_cpu_request policy pods <= max_amount.
+  Hypothesis Hpods : forall policy psel, 0 <= guaranteed_cpu_request policy (pods_at pods psel) <= max_amount.
 
   Definition NBc := Ac * Rmax / 100.
   Definition NBm := Am * Rmax / 100.
@@ -219,7 +219,7 @@ Section Pipeline.
 
   Definition pop_ok (o : pop) : Prop :=
     match o with
-    | PSample _ _ _ ucpu umem => 0 <= ucpu <= max_amount /\ 0 <= umem <= max_amount
+    | PSample _ _ _ ucpu umem _ => 0 <= ucpu <= max_amount /\ 0 <= umem <= max_amount
     | PSetAlloc c m => 0 <= c <= Ac /\ 0 <= m <= Am
     | PRestart r => 0 <= r <= Rmax
     | _ => True
@@ -248,15 +248,15 @@ Section Pipeline.
   Proof.
     intros (Hr & Hc & Ha & Hm & Hn) Ho. pose proof Hn as [Hn1 Hn2].
     assert (Hr' : 0 <= ps_ratio s <= 100) by lia.
-    destruct o as [ne pe po uc um|fail|k ty|en nen fail|l|c m|a|r]; cbn [pstep].
+    destruct o as [ne pe po uc um psl|fail|k ty|en nen fail|l|c m|a|r]; cbn [pstep].
     - pose proof (cstep_inv (ps_ratio s) pods Ac Am Hr' HAc HAm Hpods (ps_c s)
-                    (OSample ne (n_label (ps_n s)) (n_acpu (ps_n s)) (n_amem (ps_n s)) pe po uc um) Hc) as I.
+                    (OSample ne (n_label (ps_n s)) (n_acpu (ps_n s)) (n_amem (ps_n s)) pe po uc um psl) Hc) as I.
       destruct (cstep _ _ _ _) as [c' out]. cbn [fst snd] in *.
       destruct Ho as [U1 U2]. destruct I as [I _]. { simpl. repeat split; lia. }
       unfold pinv; cbn [ps_ratio ps_c ps_n].
       split; [lia|]. split; [auto|]. split; [lia|]. split; [lia|]. exact Hn.
     - pose proof (cstep_inv (ps_ratio s) pods Ac Am Hr' HAc HAm Hpods (ps_c s)
-                    (OReport (fail =? 1) (n_label (ps_n s)) (n_annot (ps_n s))) Hc I) as [_ O].
+                    (OReport (fail =? 1) (n_label (ps_n s)) (n_annot (ps_n s)) (n_acpu (ps_n s)) (n_amem (ps_n s))) Hc (conj Ha Hm)) as (_ & O & SO).
       destruct (snd (cstep _ _ _ _)) as [f q|[ev|]|e]; cbn [fst];
         try exact (conj Hr (conj Hc (conj Ha (conj Hm Hn)))).
       destruct (r_active (ps_r s)); cbn [fst]; try exact (conj Hr (conj Hc (conj Ha (conj Hm Hn)))).
@@ -336,7 +336,7 @@ Section Pipeline.
     assert (Hr' : 0 <= ps_ratio s <= 100) by lia.
     destruct (pstep_report_node pods s H L) as (ev & E & C & _ & D). exists ev. split; auto.
     pose proof (cstep_inv (ps_ratio s) pods Ac Am Hr' HAc HAm Hpods (ps_c s)
-                  (OReport false (n_label (ps_n s)) (n_annot (ps_n s))) Hc I) as [_ O].
+                  (OReport false (n_label (ps_n s)) (n_annot (ps_n s)) (n_acpu (ps_n s)) (n_amem (ps_n s))) Hc (conj Ha Hm)) as (_ & O & SO).
     rewrite C in O. simpl in O. destruct (B_mono (ps_ratio s) Hr) as [M1 M2].
     destruct NB_le as (N1 & N2).
     split; [lia|]. split; [lia|].
@@ -367,10 +367,11 @@ Section Pipeline.
     pinv s -> o_ev (snd (pstep pods s (PReport fail))) = Some ev ->
     0 <= fst ev <= lmax (map fst (c_queue (ps_c s))) /\ 0 <= snd ev <= lmax (map snd (c_queue (ps_c s))).
   Proof.
-    intros (Hr & [Hl HF] & _) H. cbn [pstep] in H. unfold cstep in H.
+    intros (Hr & [Hl HF] & Ha & Hm & _) H. cbn [pstep] in H. unfold cstep in H.
     destruct ((fail =? 1) || negb (label_on (n_label (ps_n s)))); cbn [snd] in H; [discriminate|].
     destruct (compute_report (c_queue (ps_c s))) as [r|] eqn:C; cbn [snd] in H; [|discriminate].
-    assert (Hev : ev = mask_event (effective_types (c_types (ps_c s)) (n_annot (ps_n s))) r).
+    assert (Hev : ev = mask_event (effective_types (c_types (ps_c s)) (n_annot (ps_n s)))
+                         (cap_event (ps_ratio s) (n_acpu (ps_n s)) (n_amem (ps_n s)) r)).
     { destruct (r_active (ps_r s)).
       - destruct (rhandle _ _ _ _) as [[r' n'] err]. cbn [snd o_ev] in H. congruence.
       - cbn [snd o_ev] in H. congruence. }
@@ -379,9 +380,32 @@ Section Pipeline.
     destruct (B_mono (ps_ratio s) Hr) as [M1 M2]. destruct NB_le as (N1 & N2).
     destruct (report_between_min_max (c_queue (ps_c s)) Hlen) as (c & m & E & B1 & B2 & P1 & P2).
     { eapply Forall_impl; [|exact HF]. simpl. intros u U. unfold max_alloc in *. lia. }
-    rewrite C in E. injection E as ->. subst ev. unfold mask_event. cbn [fst snd].
+    rewrite C in E. injection E as ->. subst ev.
+    pose proof (cap_event_bounds (ps_ratio s) (n_acpu (ps_n s)) (n_amem (ps_n s)) (c, m)
+                  ltac:(lia) ltac:(lia) ltac:(lia) ltac:(cbn; lia) ltac:(cbn; lia)) as (K1 & K2 & _).
+    cbn [fst snd] in K1, K2. unfold mask_event. cbn [fst snd].
     pose proof (lmax_nonneg (map fst (c_queue (ps_c s)))). pose proof (lmax_nonneg (map snd (c_queue (ps_c s)))).
     destruct (has_type 1 _), (has_type 2 _); lia.
+  Qed.
+
+  (* AFTER FIX 21d1eba: every emitted event is within ratio% of the allocatable the
+     node has AT THAT MOMENT (not only of the largest allocatable of the history) *)
+  Lemma pstep_event_current_allocatable s fail ev :
+    pinv s -> o_ev (snd (pstep pods s (PReport fail))) = Some ev ->
+    0 <= fst ev <= n_acpu (ps_n s) * ps_ratio s / 100 /\ 0 <= snd ev <= n_amem (ps_n s) * ps_ratio s / 100.
+  Proof.
+    intros (Hr & Hc & Ha & Hm & _) H.
+    assert (Hr' : 0 <= ps_ratio s <= 100) by lia.
+    pose proof (cstep_inv (ps_ratio s) pods Ac Am Hr' HAc HAm Hpods (ps_c s)
+                  (OReport (fail =? 1) (n_label (ps_n s)) (n_annot (ps_n s)) (n_acpu (ps_n s)) (n_amem (ps_n s)))
+                  Hc (conj Ha Hm)) as (_ & _ & SO).
+    cbn [pstep] in H.
+    destruct (snd (cstep (ps_ratio s) pods (ps_c s) _)) as [f q|[e|]|e]; cbn [snd o_ev] in H; try discriminate.
+    assert (e = ev).
+    { destruct (r_active (ps_r s)).
+      - destruct (rhandle _ _ _ _) as [[r' n'] err]. cbn [snd o_ev] in H. congruence.
+      - cbn [snd o_ev] in H. congruence. }
+    subst e. exact SO.
   Qed.
 
   (* every 6th handled report is written whatever the threshold says *)
@@ -403,9 +427,9 @@ Section Pipeline.
   Proof.
     intros Hinv H L ty n'.
     destruct (pstep_report_node pods s H L) as (ev & _ & C & _ & _).
-    destruct (cstep (ps_ratio s) pods (ps_c s) (OReport false (n_label (ps_n s)) (n_annot (ps_n s)))) as [c1 o1] eqn:CS.
+    destruct (cstep (ps_ratio s) pods (ps_c s) (OReport false (n_label (ps_n s)) (n_annot (ps_n s)) (n_acpu (ps_n s)) (n_amem (ps_n s)))) as [c1 o1] eqn:CS.
     simpl in C. subst o1.
-    destruct (report_step_masked _ _ _ _ _ _ _ _ CS) as [Z1 Z2].
+    destruct (report_step_masked _ _ _ _ _ _ _ _ _ _ CS) as [Z1 Z2].
     destruct (pstep_report_close s Hinv H L) as (ev' & E' & _ & _ & D).
     assert (ev' = ev).
     { destruct (pstep_report_node pods s H L) as (ev2 & E2 & C2 & _). rewrite CS in C2. simpl in C2.
@@ -423,12 +447,45 @@ Section Pipeline.
   Qed.
 End Pipeline.
 
+(* ---------- how long a stale amount can stay: unboundedly while the handler is inactive ---------- *)
+Definition quiet_op (o : pop) : Prop :=
+  match o with PSample _ _ _ _ _ _ | PReport _ | PTypes _ _ | PSetAlloc _ _ | PSetAnnot _ => True | _ => False end.
+
+Lemma pstep_quiet_inactive pods s o : quiet_op o -> r_active (ps_r s) = false ->
+  ext_same (ps_n (fst (pstep pods s o))) (ps_n s) /\ r_active (ps_r (fst (pstep pods s o))) = false.
+Proof.
+  intros Q A. destruct o; simpl in Q; try contradiction; cbn [pstep].
+  - match goal with |- context [cstep ?a ?b ?c ?d] => destruct (cstep a b c d) as [c' out] end.
+    cbn [fst ps_n ps_r]. split; [split; reflexivity|exact A].
+  - match goal with |- context [cstep ?a ?b ?c ?d] => destruct (snd (cstep a b c d)) as [f q|[ev|]|e] end;
+      try (cbn [fst]; split; [split; reflexivity|exact A]).
+    rewrite A. cbn [fst]. split; [split; reflexivity|exact A].
+  - match goal with |- context [cstep ?a ?b ?c ?d] => destruct (cstep a b c d) as [c' out] end.
+    cbn [fst ps_n ps_r]. split; [split; reflexivity|exact A].
+  - cbn [fst ps_n ps_r]. split; [split; reflexivity|exact A].
+  - cbn [fst ps_n ps_r]. split; [split; reflexivity|exact A].
+Qed.
+
+(* while the handler is inactive NO sequence of sampling / report / type
+   configuration / allocatable / annotation steps changes what the node shows:
+   a non-zero amount (also of a switched-off type) stays indefinitely *)
+Lemma prun_stale_while_inactive pods : forall ops s, Forall quiet_op ops -> r_active (ps_r s) = false ->
+  ext_same (ps_n (fst (prun pods s ops))) (ps_n s).
+Proof.
+  induction ops as [|o ops IH]; intros s Q A; cbn [prun]. { split; reflexivity. }
+  inversion Q as [|? ? Qo Qr]; subst.
+  destruct (pstep_quiet_inactive pods s o Qo A) as [[E1 E2] A'].
+  destruct (pstep pods s o) as [s1 out]. cbn [fst] in *.
+  specialize (IH s1 Qr A'). destruct (prun pods s1 ops) as [s2 outs]. cbn [fst] in *.
+  destruct IH as [I1 I2]. split; congruence.
+Qed.
+
 (* ---------- the literal statement is refuted by the update threshold ---------- *)
 Definition stale_history : list pop :=
   [PTypes 3 [1; 2]; PReporterCfg true true 0;
-   PSample false false 1 0 0; PReport 0;            (* node: 600 m *)
+   PSample false false 1 0 0 0; PReport 0;            (* node: 600 m *)
    PRestart 57; PTypes 3 [1; 2]; PReporterCfg true true 0;
-   PSample false false 1 0 0; PReport 0].           (* computed 570 m, node keeps 600 m *)
+   PSample false false 1 0 0 0; PReport 0].           (* computed 570 m, node keeps 600 m *)
 
 Lemma node_strict_refuted :
   exists ops n0, let '(s, outs) := prun [] (pinit 60 n0) ops in
@@ -438,4 +495,57 @@ Lemma node_strict_refuted :
     law_node_strict (ps_ratio s) 1000 1000 (c_queue (ps_c s)) (n_xcpu (ps_n s)) (n_xmem (ps_n s)) = false.
 Proof.
   exists stale_history, (mkNode 1 1000 1000 None None None). vm_compute. repeat split; reflexivity.
+Qed.
+
+(* ---------- Prop-level meaning of the boolean laws on the node ---------- *)
+Lemma optz_eqb_eq a b : optz_eqb a b = true -> a = b.
+Proof. destruct a, b; simpl; intros H; try discriminate; auto. apply Z.eqb_eq in H. congruence. Qed.
+
+Lemma law_node_bounds_sound rmax amaxc amaxm k xc xm :
+  0 <= rmax <= 100 -> 0 <= amaxc <= rep_max -> 0 <= amaxm <= rep_max ->
+  law_node_bounds rmax amaxc amaxm k xc xm = true ->
+  k = true /\
+  match xc with None => True | Some x => 0 <= x /\ x * 100 <= amaxc * rmax end /\
+  match xm with None => True | Some x => 0 <= x /\ x * 100 <= amaxm * rmax end.
+Proof.
+  intros Hr Hc Hm. unfold law_node_bounds, zin.
+  replace ((0 <=? rmax) && (rmax <=? 100) && ((0 <=? amaxc) && (amaxc <=? rep_max)) &&
+           ((0 <=? amaxm) && (amaxm <=? rep_max))) with true.
+  2:{ symmetry. repeat (apply andb_true_iff; split); apply Z.leb_le; lia. }
+  intros H. apply andb_true_iff in H as [K H]. apply andb_true_iff in H as [H1 H2].
+  split; auto. unfold law_node_bound1 in *.
+  split; [destruct xc|destruct xm]; auto;
+    [apply andb_true_iff in H1 as [A B]|apply andb_true_iff in H2 as [A B]]; apply Z.leb_le in A, B; auto.
+Qed.
+
+Lemma law_switched_off_sound cfg annot ac am :
+  law_switched_off cfg annot ac am = true ->
+  (has_type 1 (effective_types cfg annot) = false -> oz ac = 0) /\
+  (has_type 2 (effective_types cfg annot) = false -> oz am = 0).
+Proof.
+  unfold law_switched_off. intros H. apply andb_true_iff in H as [H1 H2].
+  split; intros T; rewrite T in *; simpl in *; apply Z.eqb_eq; assumption.
+Qed.
+
+Lemma law_report_step_sound forced bc bm ac am ev :
+  0 <= oz bc <= rep_max -> 0 <= oz bm <= rep_max -> 0 <= fst ev <= rep_max -> 0 <= snd ev <= rep_max ->
+  law_report_step forced bc bm ac am ev = true ->
+  (oz ac = fst ev /\ oz am = snd ev) \/
+  (ac = bc /\ am = bm /\ forced = false /\ close1 (oz bc) (fst ev) = true /\ close1 (oz bm) (snd ev) = true).
+Proof.
+  intros R1 R2 R3 R4. unfold law_report_step, zin.
+  replace ((0 <=? oz bc) && (oz bc <=? rep_max) && ((0 <=? oz bm) && (oz bm <=? rep_max)) &&
+           ((0 <=? fst ev) && (fst ev <=? rep_max)) && ((0 <=? snd ev) && (snd ev <=? rep_max))) with true.
+  2:{ symmetry. repeat (apply andb_true_iff; split); apply Z.leb_le; lia. }
+  intros H. apply orb_true_iff in H as [H|H].
+  - left. apply andb_true_iff in H as [H _]. apply andb_true_iff in H as [A B]. apply Z.eqb_eq in A, B. auto.
+  - right. repeat (apply andb_true_iff in H as [H ?]).
+    apply optz_eqb_eq in H. repeat split; auto. now apply optz_eqb_eq. now apply negb_true_iff.
+Qed.
+
+Lemma law_cleanup_node_sound al ac am :
+  law_cleanup_node al ac am = true -> label_on al = false /\ oz ac = 0 /\ oz am = 0.
+Proof.
+  unfold law_cleanup_node. intros H. apply andb_true_iff in H as [H C]. apply andb_true_iff in H as [A B].
+  apply negb_true_iff in A. apply Z.eqb_eq in B, C. auto.
 Qed.
